@@ -132,6 +132,29 @@ def pat_desc(pat):
 INT_RE = re.compile(r'^(-?\d+)_([iu](?:8|16|32|64|128|size))$')
 
 
+def pat_tuple_ints(pat):
+    """for a tuple pattern of integer / wildcard components: per component the list of (lo, hi) intervals, or None for
+    a wildcard / binding; None when the pattern is not of that kind"""
+    p = pat
+    while p.get('k') in ('deref', 'derefpat'):
+        p = p['sub']
+    if p.get('k') != 'leaf' or not p.get('subs'):
+        return None
+    out = []
+    for _i, sp in sorted(p['subs'], key=lambda x: x[0]):
+        q = sp
+        while q.get('k') in ('deref', 'derefpat'):
+            q = q['sub']
+        if q.get('k') == 'wild' or (q.get('k') == 'bind' and not q.get('sub')):
+            out.append(None)
+        else:
+            r = pat_ints(q)
+            if r is None:
+                return None
+            out.append(r)
+    return tuple(out)
+
+
 def pat_ints(pat):
     """set description of an integer pattern: list of (lo, hi) intervals, or None"""
     k = pat['k']
@@ -539,6 +562,15 @@ class Evaluator:
                 somearm = [a for a in inner['arms'] if pat_desc(a['pat']) == 'Some' or (a['pat'].get('k') == 'variant' and a['pat'].get('name') == 'Some')]
                 if somearm:
                     somearm = somearm[0]
+                    if isinstance(src, tuple) and src and src[0] == 'mapiter':
+                        # `for x in it.map(f)`: each iteration applies f to the next element of `it`, then runs the body on the result
+                        r_ = self.apply_closure(src[2], [('elem', src[1])], ctx)
+                        if r_:
+                            cv, ct, _rets = r_
+                            for i, sp in somearm['pat']['subs']:
+                                self.bind_pat(sp, cv, ctx)
+                            v, tb = self.ev(somearm['body'], ctx)
+                            return (('unit',), cat(ts, ['star', src[1], cat(ct, tb)]))
                     if isinstance(src, tuple) and src[0] == 'array' and 0 < len(src[1]) <= 8:
                         # a loop over an array literal is the sequence of its bodies, one per element
                         tbs = []
@@ -574,6 +606,9 @@ class Evaluator:
                 desc = ('guard', pat_desc(a['pat']), strip(gv))
             else:
                 desc = ('pat', pat_desc(a['pat']), pat_ints(a['pat']))
+                pt_ = pat_tuple_ints(a['pat'])
+                if pt_ is not None:
+                    desc = desc + (pt_,)
             v, t = self.ev(a['body'], sub)
             if self.is_err_value(v) and not _ends_err(t):
                 t = cat(t, ['ERR', 'Err value'])
@@ -799,6 +834,24 @@ class Evaluator:
         # ------------------------------------------------ combinators on Result / Option
         if f.startswith(('core::result::Result', 'core::option::Option')):
             recv = strip(argv[0]) if argv else None
+            if name == 'ok' and isinstance(recv, tuple) and recv and recv[0] == 'call' and recv[1] in ('try_from', 'try_into') and recv[3]:
+                # `uN::try_from(x).ok()`: Some(x as uN) exactly when x fits (an integer conversion, not an input error: nothing is swallowed)
+                ga_ = [g for g in (recv[4] or ()) if g in ('u8', 'u16', 'u32', 'u64', 'u128', 'usize')]
+                tgt_ = (ga_[1] if recv[1] == 'try_into' and len(ga_) > 1 else ga_[0]) if ga_ else None
+                if tgt_:
+                    mx = (1 << {'u8': 8, 'u16': 16, 'u32': 32, 'u64': 64, 'u128': 128, 'usize': 64}[tgt_]) - 1
+                    x_ = strip(recv[3][0])
+                    # under the condition the conversion is lossless: a `conv`, not a narrowing `as` cast
+                    return (('ifval', ('bin', 'Le', x_, ('lit', mx, tgt_, ())), ('opt', ('conv', x_, None, tgt_)), NONE), pre)
+            if name == 'filter' and len(argv) == 2 and isinstance(recv, tuple) and recv and (recv[0] == 'opt' or (
+                    recv[0] == 'ifval' and isinstance(strip(recv[2]), tuple) and strip(recv[2])[0] == 'opt' and strip(recv[3]) == NONE)):
+                # `opt.filter(p)`: Some(x) only when p(x) holds as well
+                payload_ = recv[1] if recv[0] == 'opt' else strip(recv[2])[1]
+                r_ = self.apply_closure(argv[1], [('ref', payload_, False)], ctx)
+                if r_ and r_[1] == ['eps']:
+                    pred_ = _simplify_bool(strip(r_[0]))
+                    cond_ = pred_ if recv[0] == 'opt' else ('bin', 'And', recv[1], pred_)
+                    return (('ifval', cond_, ('opt', payload_), NONE), pre)
             if isinstance(recv, tuple) and recv and recv[0] == 'ifval' and name in ('ok_or', 'ok_or_else', 'map_or', 'map_or_else', 'map', 'unwrap_or', 'unwrap_or_else') and \
                     all(isinstance(strip(a), tuple) and (strip(a)[0] == 'opt' or strip(a) == NONE) for a in (recv[2], recv[3])):
                 # a conditional Option taken apart by a combinator: the same `if` with the combinator applied to each side
@@ -872,6 +925,15 @@ class Evaluator:
                         return (argv[0], cat(pre, ['ONOK', t]))
                     return (('res', v), cat(pre, ['ONOK', t]) if t != ['eps'] else pre)
                 fv = strip(argv[1])
+                if isinstance(fv, tuple) and fv and fv[0] == 'fnitem' and name == 'map':
+                    # a variant constructor passed by name: `.map(Ok)`, `.map(Err)`, `.map(Some)`
+                    wrap = 'res' if isinstance(recv, tuple) and recv and recv[0] == 'res' else ('opt' if isinstance(recv, tuple) and recv and recv[0] == 'opt' else 'res')
+                    if fv[1].endswith('Result::Ok'):
+                        return ((wrap, ('res', inner)), pre)
+                    if fv[1].endswith('Option::Some'):
+                        return ((wrap, ('opt', inner)), pre)
+                    if fv[1].endswith('Result::Err'):
+                        return ((wrap, ('adt', 'core::result::Result', 'Err', [(0, inner)], None)), pre)
                 return (('res', ('mapped', fv, inner)), pre)
             if name == 'map_err':
                 return (argv[0], pre)
